@@ -8,15 +8,16 @@ LEVEL_TEXT = ("Coq theorems over the SMTP session + Deliver model, for every con
               "anything, one message per accepted storable recipient, no other mailbox changes; tied to the code by a byte-level "
               "correspondence check of whole SMTP dialogues against real sessions on both real stores, with the `entitled` "
               "specification evaluated on the implementation's own replies and store contents as the oracle")
-LEVEL_NOTE = ("Coq kernel; extraction (ExtrOcamlBasic); the MAIL/RCPT argument parsers, enmime header decoding and the policy "
-              "lists enter the session model as oracle tables computed by the driver from the real functions (the address "
-              "parser itself is modelled and proved under C04, the policy predicates under C05); store faults are outside the model; "
+LEVEL_NOTE = ("Coq kernel; extraction (ExtrOcamlBasic); the MAIL argument patterns run as the RE2 programs Go compiles them to (regenerated from the source by pins, "
+              "interpreted by Base/Regex.v), NewRecipient/ParseOrigin are computed by the address model (C04) and the policy predicates by "
+              "the policy model (C05) - all cross-checked against the real functions on every case; the remaining oracles are net.ParseIP "
+              "and enmime's header decoding; store faults are outside the model; "
               "TLS disabled; no extension installed (C17 covers hooks)")
 DESIGN_REF = "DESIGN.md §4 C01"
 RULE = ("dialogues drawn from a grammar: greeting, 1-4 transactions with valid/rejected/malformed/duplicate/+ext/mixed-case "
         "recipients, RSET/EHLO/garbage/AUTH interleaved, 3 naming modes x random accept/store/origin policies x mem/file store; "
         "distinct = distinct input line; non-trivial = something was stored or some command was refused with 5xx")
-TRUSTED = ["oracle tables for MAIL/RCPT argument parsing and header decoding are computed by the driver with the real functions",
+TRUSTED = ["net.ParseIP verdicts and enmime header facts (From/To/Subject, parse error) are oracles supplied by the driver from the real functions",
            "loopback TCP with client half-close stands for a real client connection"]
 ASSUMPTIONS = ["store operations do not fail (store faults are outside the property's quantifier)"]
 NOT_PROVED = []
